@@ -466,9 +466,14 @@ def execute (dest : Dest) (plan : Plan) (w : World) : Result :=
     let r := p0.writeNE dest ct                -- header, payload, armor close
     if !r.2 then r.1.result 1 else r.1.finish dest
 
+/-- `printVersion`: `fmt.Println(v)` to standard output; `errorf` (exit 1) if the write fails -/
+def printVersion (w : World) (line : Bytes) : Result :=
+  let r := ({ w := w } : Proc).writeStdout line
+  r.1.result (if r.2 then 0 else 1)
+
 def run (a : Args) (w : World) (o : Oracle) : Result :=
   if a.noArgs then ⟨1, w, []⟩
-  else if a.version then (({ w := w } : Proc).writeStdout o.versionLine).1.result 0   -- fmt.Println, error dropped
+  else if a.version then printVersion w o.versionLine
   else
     match prepare a w with
     | .error _ => ⟨1, w, []⟩
@@ -553,7 +558,7 @@ def kargsValid (a : KArgs) : Bool :=
 
 def krun (a : KArgs) (w : World) (o : KOracle) : Result :=
   if !kargsValid a then ⟨1, w, []⟩
-  else if a.version then (({ w := w } : Proc).writeStdout o.versionLine).1.result 0
+  else if a.version then printVersion w o.versionLine
   else
     -- the output is opened first
     let opened : Option (World × KDest) :=
